@@ -414,7 +414,7 @@ func genAdversarial(r *RNG, scale int) KeySet {
 	if scale == 1 {
 		maxN = 30000
 	}
-	switch r.Intn(8) {
+	switch r.Intn(9) {
 	case 0: // binary caterpillar
 		return KeySet{"adv:caterpillar", genDeep(r, r.Range(10, min(maxN, 1500)))}
 	case 1: // every inner node has a long step: binary tree with long edges
@@ -460,12 +460,55 @@ func genAdversarial(r *RNG, scale int) KeySet {
 		// few keys, every node the same wide nibble bitmap: the short-node
 		// table must pay for itself
 		return KeySet{"adv:decimal", genDecimal(r, 400)}
+	case 7:
+		// every inner node with a step, and the steps differ from node to node:
+		// shrinking, saw-tooth, growing, random (whatever is stored per step -
+		// a length, a difference - must stay small for every sequence)
+		mode := r.Intn(4)
+		return KeySet{fmt.Sprintf("adv:step-sequence-%d", mode), genStepCaterpillar(r, mode)}
 	case 6:
 		// byte-wide nodes of very different fan-out within one level
 		mode := r.Intn(4)
 		return KeySet{fmt.Sprintf("adv:mixed-fanout-%d", mode), genMixedFanout(r, maxN, mode)}
 	}
 	return genKeySet(r, scale)
+}
+
+// genStepCaterpillar: a binary caterpillar whose i-th inner node has a shared
+// run of its own length in front of it. mode 0: lengths shrink, 1: saw-tooth
+// 6..1, 2: grow, 3: random 1..40.
+func genStepCaterpillar(r *RNG, mode int) []string {
+	n := r.Range(80, 400)
+	top := r.Range(8, 60)
+	if top*n/2 > 15000 {
+		top = 30000 / n
+	}
+	spine := ""
+	var keys []string
+	for i := 0; i < n; i++ {
+		var l int
+		switch mode {
+		case 0:
+			l = top - i*top/n
+		case 1:
+			l = 6 - i%6
+		case 2:
+			l = 1 + i*top/n
+		default:
+			l = r.Range(1, 40)
+		}
+		if l < 1 {
+			l = 1
+		}
+		if len(spine)+l > 16000 {
+			break
+		}
+		run := string(r.Bytes(l))
+		keys = append(keys, spine+run+"\x10")
+		spine += run + "\x90"
+	}
+	keys = append(keys, spine+"z")
+	return sortUniq(keys)
 }
 
 // genMixedFanout: levels in which a few nodes have many children (11-20
@@ -1028,7 +1071,7 @@ func init() {
 		MinNontrivial: func(tier string) int { return 300 },
 		Gates: func(tier string, m *Merged) []string {
 			var missed []string
-			for _, g := range []string{"prefixed_pairs", "family:adv:caterpillar", "family:adv:big-caterpillar", "family:adv:decimal", "family:adv:long-steps", "family:adv:distinct-bitmaps", "family:adv:fanout-11", "family:adv:fanout-2", "family:adv:fanout-256", "family:adv:mixed-fanout-0", "family:adv:mixed-fanout-3", "built_through_a_long_lived_forwarded_option_list", "over_long_build_through_the_forwarded_option_list"} {
+			for _, g := range []string{"prefixed_pairs", "family:adv:caterpillar", "family:adv:big-caterpillar", "family:adv:decimal", "family:adv:long-steps", "family:adv:distinct-bitmaps", "family:adv:fanout-11", "family:adv:fanout-2", "family:adv:fanout-256", "family:adv:mixed-fanout-0", "family:adv:mixed-fanout-3", "family:adv:step-sequence-0", "family:adv:step-sequence-1", "built_through_a_long_lived_forwarded_option_list", "over_long_build_through_the_forwarded_option_list"} {
 				if m.C(g) == 0 {
 					missed = append(missed, g)
 				}
